@@ -230,6 +230,55 @@ def part_lines(ctx):
     ctx.hyp('lines', st.binary(min_size=700, max_size=700), body, max_examples=350 if ctx.quick else 6000)
 
 
+def deep_model(depth, ch):
+    """A program nested `depth` levels deep (blocks of every kind, and table / call brackets at the bottom)."""
+    name = lambda n: ('exp', [('chain', ('name', n), [])])
+    num = lambda k: ('exp', [('number', b'%d' % k)])
+    inner = [('assign', [('chain', ('name', b'x'), [])], b'=', [num(depth)]),
+             ('assign', [('chain', ('name', b't'), [])], b'=',
+              [('exp', [('table', [('pos', num(1)), ('pos', ('exp', [('table', [('pos', num(2)), ('named', b'k', num(3))])]))])])]),
+             ('call', ('chain', ('name', b'f'), [('call', ('args', [name(b'a'), ('exp', [('chain', ('name', b'g'), [('call', ('args', [num(4), num(5)]))])])]))]))]
+    block = inner
+    for d in range(depth, 0, -1):
+        k = (d + ch.below(6)) % 6
+        extra = [('assign', [('chain', ('name', b'v%d' % d), [])], b'=', [num(d)])]
+        if k == 0:
+            st_ = ('do', block)
+        elif k == 1:
+            st_ = ('while', name(b'a'), block)
+        elif k == 2:
+            st_ = ('if', [(name(b'b'), block)], extra if d % 2 else None)
+        elif k == 3:
+            st_ = ('function', [b'fn%d' % d], None, ([b'p'], False, block))
+        elif k == 4:
+            st_ = ('repeat', block, name(b'c'))
+        else:
+            st_ = ('fornum', b'i', num(1), num(3), None, block)
+        block = extra + [st_] if d % 3 else [st_] + extra
+    return block
+
+
+def part_deep(ctx):
+    """Nesting far beyond what programs usually have (indentwidth x depth reaches several hundred columns)."""
+    def body(v):
+        seed, depth, width = v
+        ch = Choices(seed)
+        model = deep_model(depth, ch)
+        toks, stmts = luagen.render(model, ch)
+        lay = luagen.layout(toks, ch, 'lines')
+        if luagen.verify(lay) is None:
+            ctx.stats.exclude('generator_selfcheck_failed')
+            return
+        src2 = reindent(lay.src, ch)
+        case = {'source': lay.src, 'width': width, 'source2': src2, 'deep': depth, 'seed': bytes(seed)}
+        check(lay.src, width, lay.kept, case, src2)
+        ctx.stats.case(lay.src + bytes((width,)), True, {'deep_nesting': depth, 'width': width,
+                                                         'columns': width * max(t.depth for t in lay.kept)},
+                       ['deep_nesting', 'width_%d' % width] + (['indent>128_columns'] if width * depth > 128 else []))
+    ctx.hyp('deep', st.tuples(st.binary(min_size=400, max_size=400), st.integers(17, 70), st.sampled_from([1, 2, 3, 4, 6, 7, 8, 8])),
+            body, max_examples=12 if ctx.quick else 80)
+
+
 FIXED = [
     b'function f()\n\n\n  x=1\n\n  y=2\nend\n',
     b'if a then\n  -- c\n  x=1\n\n  // d\n  y=2\nelse\n  z=3\nend\n',
@@ -258,13 +307,19 @@ def part_fixed(ctx):
 
 def parts(tier):
     if tier == 'quick':
-        return [('lines', part_lines, 8), ('fixed', part_fixed, 1)]
-    return [('lines', part_lines, 15), ('fixed', part_fixed, 1)]
+        return [('lines', part_lines, 8), ('fixed', part_fixed, 1), ('deep', part_deep, 2)]
+    return [('lines', part_lines, 13), ('fixed', part_fixed, 1), ('deep', part_deep, 2)]
 
 
 def replay(case):
     kept = None
-    if 'seed' in case:
+    if 'deep' in case:
+        ch = Choices(case['seed'])
+        toks, _stmts = luagen.render(deep_model(case['deep'], ch), ch)
+        lay = luagen.layout(toks, ch, 'lines')
+        if lay.src == case['source']:
+            kept = lay.kept
+    elif 'seed' in case:
         lay, stmts, width, ch = build(case['seed'])
         if lay.src == case['source']:
             kept = lay.kept
@@ -274,7 +329,7 @@ def replay(case):
 def vacuity(total, tier):
     msgs = []
     for lab in ('blank_line_run', 'comments', 'slash_comment', 'multi_line_comment', 'comments>=9', 'depth>=2', 'short_if_or_print', 'width_0', 'width_8',
-                'fixed_shape'):
+                'fixed_shape', 'indent>128_columns'):
         if total.classes.get(lab, 0) < 5:
             msgs.append('class %s seen %d times' % (lab, total.classes.get(lab, 0)))
     return msgs
